@@ -59,6 +59,25 @@ def shift_sites(body):
     return out
 
 
+def _replace(e, old, new):
+    if e == old:
+        return new
+    if not isinstance(e, tuple) or not e:
+        return e
+    return tuple(_replace(x, old, new) if isinstance(x, tuple) else x for x in e)
+
+
+def _strip_all(e):
+    """Remove casts and overflow wrappers everywhere in an expression (for row evaluation)."""
+    if not isinstance(e, tuple) or not e:
+        return e
+    if e[0] == "cast":
+        return _strip_all(e[2])
+    if e[0] == "ovf":
+        return _strip_all(e[1])
+    return tuple(_strip_all(x) if isinstance(x, tuple) else x for x in e)
+
+
 def run(facts, tier, ctx):
     out = []
     impls = facts.impls_of_trait("bitsink::BitSink")
@@ -224,4 +243,173 @@ def run(facts, tier, ctx):
     witness.run_group(ts, "c11", facts.tag, ctx)
     ts.require_floor(3, "witnesses")
     out.append(ts)
+    # ------------------------------------------------------------ FILLSTATE
+    # a storage word can only be appended correctly when the fill of the last word is known: every growth of `storage` in a
+    # sink method is preceded, on every path, by a read of the word-level fill (`paddings()`, directly or through a wrapper
+    # all of whose paths read it).  A byte-level alignment alone is not enough for a sink with wider words.
+    from .lib_mpt import performs, mpt, path_str
+    from .lib_expr import expr as lexpr
+    fs = RuleResult("FILLSTATE", "every growth of a sink's storage is dominated by a read of the word-level fill state")
+    fill_readers = [b for b in facts.body_list if (b.raw.get("impl_self") or "").startswith("bitsink::MemSink")
+                    and not b.raw.get("impl_trait") and b.raw.get("name") == "paddings"]
+    okreader = False
+    for fr in fill_readers:
+        for _bi, _si, st in fr.iter_stmts():
+            if st["k"] == "assign" and st["rv"]["k"] == "bin" and st["rv"]["op"] == "BitAnd":
+                rhs = lexpr(fr, st["rv"]["b"])
+                if "BITS" in str(rhs):
+                    okreader = True
+    if not okreader:
+        fs.fail(Finding("FILLSTATE", "bitsink::MemSink::paddings", "fill-reader-not-found", 0, "",
+                        "cannot find the word-level fill reader (bitlength masked with BITS - 1)"))
+
+    def reads_fill(t):
+        fn = t.get("fn") or {}
+        return fn.get("name") == "paddings" and (fn.get("def") or "").startswith("bitsink::MemSink")
+    GROW = ("push", "resize", "extend_from_slice", "extend", "insert", "append", "resize_with")
+    methods = []
+    for imp in impls:
+        if not imp["self"].startswith("bitsink::MemSink"):
+            continue
+        for it_ in imp["items"]:
+            b = facts.bodies.get(it_)
+            if b is not None:
+                methods.append(b)
+    seen_ids = set(b.id for b in methods)
+    work = list(methods)
+    while work:
+        b = work.pop()
+        for c in facts.callee_bodies(b, trait_fanout=False):
+            if c.id not in seen_ids and (c.raw.get("impl_self") or "").startswith("bitsink::MemSink") \
+                    and not c.raw.get("impl_trait") and c.raw.get("name") not in ("new", "with_capacity", "clear", "reserve"):
+                seen_ids.add(c.id)
+                methods.append(c)
+                work.append(c)
+    for b in methods:
+        through = performs(facts, b, reads_fill, depth=2)
+        for bi, t in b.calls():
+            fn = t.get("fn") or {}
+            if fn.get("name") not in GROW or "Vec" not in (fn.get("full") or ""):
+                continue
+            recv = lexpr(b, t["args"][0])
+            if ".storage" not in str(recv):
+                continue
+            path = b.find_path(0, {bi}, removed=set(through) - {bi})
+            where = b.loc(bi, "term")
+            if path is None:
+                fs.ok({"function": b.id, "growth": fn.get("name"), "site": where, "verdict": "ok"})
+            else:
+                fs.fail(Finding("FILLSTATE", b.id, "growth-without-fill-read:%s" % fn.get("name"), 0, where,
+                                "%s appends to the sink's storage (%s at %s) on a path that never reads the word-level fill "
+                                "state: %s. Whatever the last storage word already holds is ignored, so the bits land at the "
+                                "wrong position whenever the sink is not word-aligned" % (b.id, fn.get("name"), where,
+                                                                                          path_str(b, path))))
+    fs.require_floor(5, "storage growth sites in the sink implementations")
+    out.append(fs)
+    # ------------------------------------------------------------ GROWTH
+    # the number of storage words a zero run / bit field adds is ceil(remaining_bits / word_bits): the expression handed to
+    # Vec::resize is summarised by the effect interpreter and evaluated on one full period of remaining-bit counts.
+    from . import lib_effect as E
+    gr = RuleResult("GROWTH/ceil", "storage grows by ceil(bits / word bits) words where a sink method resizes it")
+    for b in methods:
+        if not any((t.get("fn") or {}).get("name") == "resize" for _bi, t in b.calls()):
+            continue
+        m = re.search(r"MemSink<(u\d+)>", b.raw.get("impl_self") or b.id)
+        unit = E.INT_BITS.get(m.group(1)) if m else None
+        if unit is None:
+            continue
+        ectx = E.Ctx(facts)
+        ectx.open_loops = True
+        ectx.log_calls = r"Vec::<.*>::resize$"
+        ectx.noinline = [r"paddings"]
+        it = E.Interp(ectx, b)
+        try:
+            it.run()
+        except E.Undecided as e:
+            gr.fail(Finding("GROWTH/ceil", b.id, "undecided", 0, b.loc(), "cannot summarise %s: %s" % (b.id, e)))
+            continue
+        for c in ectx.calls:
+            newlen = E.strip_casts(c[1][1])
+            K = None
+            if newlen[0] == "bin" and newlen[1] == "Add":
+                for a, o in ((newlen[2], newlen[3]), (newlen[3], newlen[2])):
+                    if E.strip_casts(a)[0] == "len" and ".storage" in E.canon(a):
+                        K = o
+            if K is None:
+                gr.fail(Finding("GROWTH/ceil", b.id, "resize-shape", 0, c[2], "resize target %s is not storage.len() + K"
+                                % E.show(newlen)[:120]))
+                continue
+            leaves = []
+
+            def collect(e):
+                e = E.strip_casts(e)
+                if not isinstance(e, tuple):
+                    return
+                if e[0] == "c":
+                    return
+                if e[0] == "bin":
+                    collect(e[2])
+                    collect(e[3])
+                    return
+                if e[0] == "ovf":
+                    collect(e[1])
+                    return
+                if e not in leaves:
+                    leaves.append(e)
+            collect(K)
+            if len(leaves) > 1:
+                # the remaining-bit count is the smallest sub-expression containing every non-constant leaf
+                def contains_all(e):
+                    found = []
+
+                    def go(x):
+                        x = E.strip_casts(x)
+                        if not isinstance(x, tuple):
+                            return
+                        if x[0] == "ovf":
+                            go(x[1])
+                            return
+                        if x in leaves and x not in found:
+                            found.append(x)
+                            return
+                        if x[0] == "bin":
+                            go(x[2])
+                            go(x[3])
+                    go(e)
+                    return len(found) == len(leaves)
+
+                def lca(e):
+                    e0 = e
+                    e = E.strip_casts(e)
+                    if isinstance(e, tuple) and e[0] == "ovf":
+                        return lca(e[1])
+                    if isinstance(e, tuple) and e[0] == "bin":
+                        for ch in (e[2], e[3]):
+                            if contains_all(ch):
+                                return lca(ch)
+                    return e
+                node = lca(K)
+                leaves = [node]
+                K = _replace(_strip_all(K), _strip_all(node), ("var",))
+                leaves = [("var",)]
+            if len(leaves) != 1:
+                gr.fail(Finding("GROWTH/ceil", b.id, "growth-not-a-function-of-one-count", 0, c[2],
+                                "cannot identify the remaining-bit count in %s" % E.show(K)[:120]))
+                continue
+            bad = []
+            for x in range(1, 2 * unit + 2):
+                v = E.evalc(_strip_all(K), {leaves[0]: x})
+                want = -(-x // unit)
+                if v != want:
+                    bad.append((x, v, want))
+            if bad:
+                gr.fail(Finding("GROWTH/ceil", b.id, "growth!=ceil", 0, c[2],
+                                "%s grows its storage by %s words for a remaining bit count x = %s; for x = %d that is %s "
+                                "words, ceil(x / %d) = %d (%d of %d counts differ): the sink's byte export gets a spurious or "
+                                "missing word" % (b.id, E.show(K), E.show(leaves[0])[:60], bad[0][0], bad[0][1], unit,
+                                                  bad[0][2], len(bad), 2 * unit + 1)))
+            else:
+                gr.ok({"function": b.id, "growth": E.show(K)[:80], "unit_bits": unit, "verdict": "= ceil(x / unit) on 1..=%d" % (2 * unit + 1)})
+    gr.require_floor(2, "resize sites in the sink implementations")
+    out.append(gr)
     return out
